@@ -49,6 +49,14 @@ class Canon(ast.NodeTransformer):
         return self.visit(node.value)  # `(x := e)` has the value of e
 
     def visit_Subscript(self, node: ast.Subscript):
+        # TABLE[bool(x)] over a constant {True: a, False: b}  ==  a if x else b
+        if isinstance(node.value, (ast.Name, ast.Attribute)) and isinstance(node.slice, ast.Call) and isinstance(node.slice.func, ast.Name) and node.slice.func.id == "bool" and len(node.slice.args) == 1 and not node.slice.keywords:
+            try:
+                tab = self.I.folder.fold(self.f.module, node.value)
+            except Unfoldable:
+                tab = None
+            if isinstance(tab, dict) and set(tab) == {True, False} and all(isinstance(v, (str, int)) for v in tab.values()):
+                return ast.IfExp(test=self.visit(node.slice.args[0]), body=ast.Constant(value=tab[True]), orelse=ast.Constant(value=tab[False]))
         node = self.generic_visit(node)
         # element of a literal tuple / list (a helper that returns `(a, b)` unpacked by its caller)
         if isinstance(node.value, (ast.Tuple, ast.List)) and isinstance(node.slice, ast.Constant) and isinstance(node.slice.value, int) and not any(isinstance(x, ast.Starred) for x in node.value.elts):
@@ -158,11 +166,16 @@ class Canon(ast.NodeTransformer):
             if ok:
                 for p, a in zip(params, node.args):
                     sub[p] = self.visit(copy.deepcopy(a))
+                allp = [p for p in f.params if p not in ("self", "cls")]  # keyword-only parameters included
                 for kw in node.keywords:
-                    if kw.arg is None or kw.arg not in params:
+                    if kw.arg is None or kw.arg not in allp:
                         ok = False
                         break
                     sub[kw.arg] = self.visit(copy.deepcopy(kw.value))
+                for p in allp:
+                    if p not in sub and f.param_default(p) is not None:
+                        sub[p] = copy.deepcopy(f.param_default(p))
+                params = allp
             if ok and all(p in sub for p in params):
                 inner = Canon(self.I, f, "", self.depth + 1, sub)
                 res = inner.visit(copy.deepcopy(ret))
